@@ -151,7 +151,7 @@ def all_partitions(data):
         yield parts
 
 
-def aliased(rng, enc):
+def aliased(rng, enc, adds=None):
     """enc() encodes something using rng; returns enc()'s result with one randomly chosen Exp-Golomb element displaced by a
     multiple of 256 (2^8, 2^9, 2^16, 2^17, 2^24, 2^25: the value and, for se(v), v itself wrap onto the original under a
     cast to 8 / 16 / 24 bits).  The random choices inside enc are replayed identically."""
@@ -162,7 +162,7 @@ def aliased(rng, enc):
     n = UE_SEEN
     st2 = rng.getstate()
     j = rng.randrange(max(1, n))
-    add = rng.choice([1 << 8, 1 << 9, 1 << 8, 1 << 9, 1 << 16, 1 << 17, 1 << 24, 1 << 25])
+    add = rng.choice(adds or [1 << 8, 1 << 9, 1 << 8, 1 << 9, 1 << 16, 1 << 17, 1 << 24, 1 << 25])
     rng.setstate(st)
     ALIAS, UE_SEEN = [j, add], 0
     try:
